@@ -6,7 +6,7 @@ import z3
 
 from pyvc import builtins_model as B
 from pyvc.loops import LoopSpec
-from pyvc.values import Obj, SSeq, concrete, fresh_const, fresh_int, to_z3, z_and, z_eq, z_not, zbool
+from pyvc.values import Obj, SSeq, concrete, fresh_const, fresh_int, fresh_name, to_z3, z_and, z_eq, z_not, zbool
 from theories import alg as A
 
 RULES = 'furax._base.rules'
@@ -49,19 +49,67 @@ def ends_kept(arr, n, arr0, n0):
 
 
 # ------------------------------------------------------------------------------- callee contracts
+def _pre_chain_ok(interp, a0, n0, who):
+    """inside the scan the two n-ary rules are always called on a well-typed chain: stated as a PRECONDITION of the
+    call (its own obligation) and then available as a fact — the postconditions below are conditional on it"""
+    if not getattr(interp, 'strict_rule_calls', False):
+        return
+    from theories import colmat as CM
+    CM.ob(interp, 'pre', f'{who}-is-called-on-a-well-typed-chain', A.chain_ok(a0, n0))
+    interp.run.assume(A.chain_ok(a0, n0))
+
+
+def sel_facts(sel, r_arr, n, a0, n0):
+    """the result is an order-preserving selection of the operands: r[k] = a0[sel(k)], k <= sel(k) <= n0 - n + k"""
+    k = fresh_int('k')
+    return z3.ForAll([k], z3.Implies(z3.And(k >= 0, k < n),
+                                     z3.And(sel(k) >= 0, sel(k) < n0, r_arr[k] == a0[sel(k)], k <= sel(k), sel(k) <= n0 - n + k)),
+                     patterns=[r_arr[k]])
+
+
+def prefix_kept(r_arr, n, a0, n0, m):
+    """an identity-free prefix of length m stays in place"""
+    j = fresh_int('j')
+    return z3.Implies(z3.And(0 <= m, m <= n0, no_identity(a0, m)),
+                      z3.And(m <= n, z3.ForAll([j], z3.Implies(z3.And(0 <= j, j < m), r_arr[j] == a0[j]))))
+
+
+def suffix_kept(r_arr, n, a0, n0, m):
+    """an identity-free suffix a0[m:] stays at the end"""
+    j, t = fresh_int('j'), fresh_int('t')
+    d = n - (n0 - m)
+    return z3.Implies(z3.And(0 <= m, m <= n0, z3.ForAll([j], z3.Implies(z3.And(m <= j, j < n0), z3.Not(A.isId(a0[j]))))),
+                      z3.And(d >= 0, z3.ForAll([t], z3.Implies(z3.And(0 <= t, t < n0 - m), r_arr[d + t] == a0[m + t]))))
+
+
 def identity_rule_contract(interp, fi, args, kwargs):
-    """IdentityRule.apply — proved in scenario `identity_rule` below"""
+    """IdentityRule.apply — proved in scenario `identity_rule` below (pot: trusted, like the scalar relocation).
+    Ghost arguments: the prefix / suffix clauses are instantiated at the caller's `index` and `index + len(new_ops)` when
+    the call is made from inside the scan (they are proved for EVERY m in the scenario)."""
     ops = B.as_seq(interp, args[-1])
     run = interp.run
     a0 = A.arr_of(run, ops)
     n0 = to_z3(ops.length)
+    _pre_chain_ok(interp, a0, n0, 'IdentityRule.apply')
     r = A.op_seq('noid')
     n = to_z3(r.length)
+    sel = z3.Function(fresh_name('sel'), z3.IntSort(), z3.IntSort())
     run.assume(z3.And(n >= 0, n <= n0, A.Ww(r.arr, 0, n) == A.Ww(a0, 0, n0), A.Wc(r.arr, 0, n) == A.Wc(a0, 0, n0),
                       no_identity(r.arr, n), z3.Implies(A.chain_ok(a0, n0), A.chain_ok(r.arr, n)),
                       z3.Implies(A.chain_ok(a0, n0), ends_kept(r.arr, n, a0, n0)),
                       z3.Implies(z3.And(A.chain_ok(a0, n0), n == 0, n0 >= 1), A.outs(a0[0]) == A.ins(a0[n0 - 1])),
-                      A.lem_empty(r.arr, 0)))
+                      A.lem_empty(r.arr, 0), sel_facts(sel, r.arr, n, a0, n0),
+                      # dropping operators does not create inversions among the remaining ones
+                      A.pot(r.arr, n) <= A.pot(a0, n0), A.pot(r.arr, n) >= 0))
+    fr = interp.framestack[-1] if getattr(interp, 'framestack', None) else None
+    if fr is not None:
+        ok, index = fr.lookup('index')
+        ok2, new_ops = fr.lookup('new_ops')
+        if ok:
+            m = to_z3(index)
+            run.assume(prefix_kept(r.arr, n, a0, n0, m))
+            if ok2:
+                run.assume(suffix_kept(r.arr, n, a0, n0, m + to_z3(B.as_seq(interp, new_ops).length)))
     return B.PyList(None, seq=r)
 
 
@@ -71,6 +119,7 @@ def homothety_rule_contract(interp, fi, args, kwargs):
     run = interp.run
     a0 = A.arr_of(run, ops)
     n0 = to_z3(ops.length)
+    _pre_chain_ok(interp, a0, n0, 'HomothetyRule.apply')
     r = A.op_seq('hom')
     n = to_z3(r.length)
     run.assume(z3.And(n >= 0, n <= n0, z3.Implies(n0 >= 1, n >= 1),
@@ -100,7 +149,8 @@ def scan_loop_specs(ghost):
                       z3.Implies(n >= 1, z3.And(A.outs(arr[0]) == ghost['outs0'], A.ins(arr[n - 1]) == ghost['ins0'])),
                       z3.Implies(n == 0, ghost['outs0'] == ghost['ins0']),
                       nf1(arr, n, idx),                                                          # C07 NF1
-                      z3.Implies(n >= 1, hom_nf(arr, n)))                                        # C07 NF2
+                      z3.Implies(n >= 1, hom_nf(arr, n)),                                        # C07 NF2
+                      no_identity(arr, n))                                                       # C07 NF3
 
     def havoc_while(L):
         L.set('operands', B.PyList(None, seq=A.op_seq('ops_h')))
@@ -138,6 +188,7 @@ def scan(ck, T, prop):
         ghost.update(W0w=A.Ww(a0, 0, n0), W0c=A.Wc(a0, 0, n0), outs0=A.outs(a0[0]), ins0=A.ins(a0[n0 - 1]))
         S.assume(z3.And(A.chain_ok(a0, n0), A.lem_empty(a0, 0)))
         rule = Obj(P.cls('AlgebraicReductionRule'))
+        S.I.strict_rule_calls = True
         lst0 = B.PyList(None, seq=ops)
         out = S.call(S.I.getattr(rule, 'apply'), [lst0])
         if not out.normal:
@@ -163,7 +214,7 @@ def scan(ck, T, prop):
             S.oblige('post', z3.Implies(n0 >= 2, hom_nf(arr, n)), tag='NF2-at-most-one-scalar-at-the-smaller-end',
                      exact=False)
             S.oblige('post', z3.Implies(n >= 2, no_identity(arr, n)), tag='NF3-no-identity-inside-a-longer-chain',
-                     exact=False, finding='C07-identity-from-rule-stays')
+                     exact=False)
     contracts = {f'{RULES}.IdentityRule.apply': identity_rule_contract,
                  f'{RULES}.HomothetyRule.apply': homothety_rule_contract}
     ck.explore(f'{RULES}.AlgebraicReductionRule.apply', body, T, contracts=contracts, loop_specs=scan_loop_specs(ghost),
@@ -215,6 +266,17 @@ def rules_scenarios(ck, T, prop):
         S.oblige('post', z3.Implies(A.chain_ok(a0, n0), ends_kept(arr, n, a0, n0)), tag='ends-kept', exact=False)
         S.oblige('post', z3.Implies(z3.And(A.chain_ok(a0, n0), n == 0, n0 >= 1), A.outs(a0[0]) == A.ins(a0[n0 - 1])),
                  tag='empty-only-for-square-chain', exact=False)
+        # order-preserving selection (witness: the ghost index map of the filtering comprehension), kept prefix / suffix
+        g = S.run.ghost.get('last_filter')
+        if g is None:
+            S.oblige('post', False, tag='result-is-a-filtering-of-the-operands')
+            return
+        m, m2 = z3.Int('m_prefix'), z3.Int('m_suffix')
+        S.assume(A.lem_filter_prefix(g, m))         # instances of the selection lemma (props/lemmas.py)
+        S.assume(A.lem_filter_suffix(g, m2))
+        S.oblige('post', sel_facts(g['idx'], arr, n, a0, n0), tag='order-preserving-selection')
+        S.oblige('post', prefix_kept(arr, n, a0, n0, m), tag='identity-free-prefix-stays-in-place (every m)')
+        S.oblige('post', suffix_kept(arr, n, a0, n0, m2), tag='identity-free-suffix-stays-at-the-end (every m)')
     ck.explore(f'{RULES}.IdentityRule.apply', identity_rule, T, axioms=size_axioms())
 
     ghost = {}
